@@ -207,7 +207,13 @@ func saveState(lastMessages map[string]interface{}) {
 		log.Println("Could not remove backup file ", bakname, " even though it exists: ", err)
 		return
 	}
-	err = os.Rename(mainname, bakname)
+	// Keep the old config file in place under its own name (hard link it to the backup name) until
+	// the final rename replaces it atomically: if dastard is killed before that rename, the next
+	// start-up must still find a complete config file. Fall back to renaming where links do not work.
+	err = os.Link(mainname, bakname)
+	if err != nil && !os.IsNotExist(err) {
+		err = os.Rename(mainname, bakname)
+	}
 	if err != nil && !os.IsNotExist(err) {
 		log.Println("Could not save backup file: ", err)
 		return
